@@ -37,7 +37,7 @@ def main(tier):
         rf = os.path.join(d, name + '.json')
         rc, out = V.run([hr, 'recs', os.path.join(d, name + '.txt'), rf, str(chunk)] + (['nogen'] if name == 'huge' else []), timeout=1800, env={'VERIF_SEED': V.seed()})
         if rc != 0:
-            raise V.Broken('h_rect failed rc=%d: %s' % (rc, out[-2000:]))
+            V.harness_exit('h_rect:' + name, rc, out)
         r = V.tlc(SPT, cfg(d, 'recs', 'Spec', 2, 2), env={'RORECS': rf}, timeout=3000, cont=True, mem='16g')
         ev.add_tlc('records %s' % name, r)
         recs = json.load(open(rf))['recs']
